@@ -1,11 +1,27 @@
-(* LuaWf: the model of "LuaJIT (2.x, no 5.2 compatibility) loads this chunk".  Definitions only.
+(* LuaWf: the model of "the interpreter loads this chunk", per dialect.  Definitions only.
+     Lua53  (reference): PUC-Rio Lua 5.3 (lparser.c / llex.c)
+     LuaJIT (information): LuaJIT 2.x without 5.2 compatibility (lj_parse.c / lj_lex.c)
 
-   lua_wf src = WfOk  iff
+   Differences between the dialects:
+                                     Lua53                          LuaJIT
+     `break`                         anywhere in a block            last statement of its block
+     upvalues per function           255 (MAXUPVAL)                 60 (LJ_MAX_UPVAL)
+     empty statement `;`             allowed                        syntax error
+     `//`                            operator                       syntax error
+     `\u{XXX}` in strings            allowed                        invalid escape
+     bytes >= 128 in names           not allowed                    allowed
+   Common: `return` last in its block, `goto` keyword, 200 locals per function (LUAI_MAXVARS /
+   LJ_MAX_LOCVAR), unknown escapes and raw newlines in quoted strings are errors, the goto/label rules
+   below (lparser.c of 5.3 and lj_parse.c implement the same resolution).
+   Not supported in either dialect (answer WfBad "...unsupported: ..."): `...`, method syntax, and
+   in Lua53 the bitwise operators and hexadecimal floats.
+
+   lua_wf d src = WfOk  iff
    1. the source tokenizes and parses (LuaLex / LuaParse).  This already covers: reserved words used as
       a variable, field or label name; assignment to something that is not a name or an index
       expression; an expression statement that is not a call; string literals with a raw
       newline, a lone trailing backslash or an invalid escape; malformed numbers;
-   2. `return` and `break` are the last statement of their block (Lua 5.1 rule kept by LuaJIT);
+   2. `return` is the last statement of its block; in LuaJIT so is `break` (Lua 5.1 rule);
    3. `break` occurs inside a loop of the same function;
    4. goto/labels, as lj_parse.c resolves them: a label may not be declared twice in the same block;
       every goto has a label with its name in the same block or in an enclosing block of the same
@@ -16,8 +32,8 @@
    5. no function (the main chunk included) has more than 200 simultaneously active local
       variables (parameters, the 3 hidden control variables of a for loop and its declared
       variables included), LJ_MAX_LOCVAR;
-   6. no function refers to more than 60 distinct variables of enclosing functions, directly or
-      through its nested functions (LJ_MAX_UPVAL).
+   6. no function refers to more than 60 (LuaJIT) / 255 (Lua53) distinct variables of enclosing
+      functions, directly or through its nested functions.
 
    Not modelled: the limit on registers/"function or expression too complex" (250 slots), on
    constants (65536), on nesting depth of the C parser (200 levels), on jump distances. *)
@@ -29,7 +45,7 @@ Local Open Scope string_scope.
 Inductive wf_result := WfOk | WfBad (reason : string).
 
 Definition max_locals : N := 200%N.
-Definition max_upvalues : nat := 60.
+Definition max_upvalues (d : dialect) : nat := if is53 d then 255 else 60.
 
 (* inl reason | inr result *)
 Definition wres (A : Type) : Type := (string + A)%type.
@@ -62,23 +78,24 @@ Fixpoint mem_n (x : N) (l : list N) : bool :=
   match l with [] => false | y :: l' => if (x =? y)%N then true else mem_n x l' end.
 
 (* record uid as an upvalue of the k innermost functions *)
-Fixpoint add_upvalue (uid : N) (k : nat) (upv : list (list N)) : wres (list (list N)) :=
+Fixpoint add_upvalue (d : dialect) (uid : N) (k : nat) (upv : list (list N)) : wres (list (list N)) :=
   match k, upv with
   | O, _ => inr upv
   | S k', [] => inr []
   | S k', s :: rest =>
       let s' := if mem_n uid s then s else uid :: s in
-      if Nat.ltb max_upvalues (List.length s') then inl "function has more than 60 upvalues"
-      else do* rest' <- add_upvalue uid k' rest; inr (s' :: rest')
+      if Nat.ltb (max_upvalues d) (List.length s')
+      then inl (if is53 d then "function has more than 255 upvalues" else "function has more than 60 upvalues")
+      else do* rest' <- add_upvalue d uid k' rest; inr (s' :: rest')
   end.
 
 (* a use of variable x *)
-Definition reference (c : wctx) (x : string) (w : wst) : wres wst :=
+Definition reference (d : dialect) (c : wctx) (x : string) (w : wst) : wres wst :=
   match lookup x (x_scope c) with
   | None => inr w                                   (* global *)
-  | Some (uid, d) =>
-      if Nat.ltb d (x_depth c) then
-        do* upv <- add_upvalue uid (x_depth c - d) (w_upv w);
+  | Some (uid, dp) =>
+      if Nat.ltb dp (x_depth c) then
+        do* upv <- add_upvalue d uid (x_depth c - dp) (w_upv w);
         inr (mkW (w_next w) upv)
       else inr w
   end.
@@ -128,55 +145,55 @@ Fixpoint merge_pending (inner : labels) (seen : labels) (nact : N) (pending : la
 
 Definition out_of_fuel {A : Type} : wres A := inl "internal: lua_wf out of fuel".
 
-Fixpoint wf_expr (n : nat) (c : wctx) (e : expr) (w : wst) {struct n} : wres wst :=
+Fixpoint wf_expr (d : dialect) (n : nat) (c : wctx) (e : expr) (w : wst) {struct n} : wres wst :=
   match n with
   | O => out_of_fuel
   | S n =>
       match e with
-      | ENil | ETrue | EFalse | ENum _ | EStr _ => inr w
-      | EVar x => reference c x w
-      | EIndex a k => do* w1 <- wf_expr n c a w; wf_expr n c k w1
-      | ECall f args => do* w1 <- wf_expr n c f w; wf_exprs n c args w1
-      | EFunc ps b => wf_func n c ps b w
-      | EBin _ a b => do* w1 <- wf_expr n c a w; wf_expr n c b w1
-      | EUn _ a => wf_expr n c a w
-      | ETable fs => wf_fields n c fs w
-      | EParen a => wf_expr n c a w
+      | ENil | ETrue | EFalse | ENum _ _ | EStr _ => inr w
+      | EVar x => reference d c x w
+      | EIndex a k => do* w1 <- wf_expr d n c a w; wf_expr d n c k w1
+      | ECall f args => do* w1 <- wf_expr d n c f w; wf_exprs d n c args w1
+      | EFunc ps b => wf_func d n c ps b w
+      | EBin _ a b => do* w1 <- wf_expr d n c a w; wf_expr d n c b w1
+      | EUn _ a => wf_expr d n c a w
+      | ETable fs => wf_fields d n c fs w
+      | EParen a => wf_expr d n c a w
       end
   end
 
-with wf_exprs (n : nat) (c : wctx) (es : list expr) (w : wst) {struct n} : wres wst :=
+with wf_exprs (d : dialect) (n : nat) (c : wctx) (es : list expr) (w : wst) {struct n} : wres wst :=
   match n with
   | O => out_of_fuel
   | S n =>
       match es with
       | [] => inr w
-      | e :: es' => do* w1 <- wf_expr n c e w; wf_exprs n c es' w1
+      | e :: es' => do* w1 <- wf_expr d n c e w; wf_exprs d n c es' w1
       end
   end
 
-with wf_fields (n : nat) (c : wctx) (fs : list field) (w : wst) {struct n} : wres wst :=
+with wf_fields (d : dialect) (n : nat) (c : wctx) (fs : list field) (w : wst) {struct n} : wres wst :=
   match n with
   | O => out_of_fuel
   | S n =>
       match fs with
       | [] => inr w
-      | FPos e :: fs' => do* w1 <- wf_expr n c e w; wf_fields n c fs' w1
+      | FPos e :: fs' => do* w1 <- wf_expr d n c e w; wf_fields d n c fs' w1
       | FKey k v :: fs' =>
-          do* w1 <- wf_expr n c k w;
-          do* w2 <- wf_expr n c v w1;
-          wf_fields n c fs' w2
+          do* w1 <- wf_expr d n c k w;
+          do* w2 <- wf_expr d n c v w1;
+          wf_fields d n c fs' w2
       end
   end
 
 (* a function literal in context c *)
-with wf_func (n : nat) (c : wctx) (ps : list string) (b : block) (w : wst) {struct n} : wres wst :=
+with wf_func (d : dialect) (n : nat) (c : wctx) (ps : list string) (b : block) (w : wst) {struct n} : wres wst :=
   match n with
   | O => out_of_fuel
   | S n =>
       let c0 := mkCtx (x_scope c) (S (x_depth c)) 0%N false in
       do* (c1, w1) <- declare ps c0 (mkW (w_next w) ([] :: w_upv w));
-      do* (_, pending, w2) <- wf_block n c1 (x_nact c1) false b [] [] w1;
+      do* (_, pending, w2) <- wf_block d n c1 (x_nact c1) false b [] [] w1;
       match pending with
       | (l, _) :: _ => inl ("undefined label '" ++ l ++ "'")
       | [] => inr (mkW (w_next w2) (tl (w_upv w2)))
@@ -185,20 +202,20 @@ with wf_func (n : nat) (c : wctx) (ps : list string) (b : block) (w : wst) {stru
 
 (* a nested block b entered in context ci (the enclosing statement list is in context c with the
    labels `seen` so far); `cond` is the until-condition of a repeat, checked in the scope at the end of b *)
-with wf_sub (n : nat) (c ci : wctx) (is_repeat : bool) (b : block) (cond : option expr)
+with wf_sub (d : dialect) (n : nat) (c ci : wctx) (is_repeat : bool) (b : block) (cond : option expr)
             (seen pending : labels) (w : wst) {struct n} : wres (labels * wst) :=
   match n with
   | O => out_of_fuel
   | S n =>
-      do* (cend, inner, w1) <- wf_block n ci (x_nact ci) is_repeat b [] [] w;
-      do* w2 <- (match cond with Some e => wf_expr n cend e w1 | None => inr w1 end);
+      do* (cend, inner, w1) <- wf_block d n ci (x_nact ci) is_repeat b [] [] w;
+      do* w2 <- (match cond with Some e => wf_expr d n cend e w1 | None => inr w1 end);
       inr (merge_pending inner seen (x_nact c) pending, w2)
   end
 
 (* the statements of one block, in order.  entry = active locals when the block was entered;
    seen = labels of this block passed so far; pending = unresolved forward gotos.
    Returns the context at the end of the block, the gotos that leave it, and the state. *)
-with wf_block (n : nat) (c : wctx) (entry : N) (is_repeat : bool) (b : block) (seen pending : labels) (w : wst)
+with wf_block (d : dialect) (n : nat) (c : wctx) (entry : N) (is_repeat : bool) (b : block) (seen pending : labels) (w : wst)
               {struct n} : wres (wctx * labels * wst) :=
   match n with
   | O => out_of_fuel
@@ -209,79 +226,84 @@ with wf_block (n : nat) (c : wctx) (entry : N) (is_repeat : bool) (b : block) (s
           let loop_ctx (ci : wctx) := mkCtx (x_scope ci) (x_depth ci) (x_nact ci) true in
           match s with
           | SLocal xs es =>
-              do* w1 <- wf_exprs n c es w;
+              do* w1 <- wf_exprs d n c es w;
               do* (c1, w2) <- declare xs c w1;
-              wf_block n c1 entry is_repeat rest seen pending w2
+              wf_block d n c1 entry is_repeat rest seen pending w2
           | SAssign ts es =>
-              do* w1 <- wf_exprs n c ts w;
-              do* w2 <- wf_exprs n c es w1;
-              wf_block n c entry is_repeat rest seen pending w2
+              do* w1 <- wf_exprs d n c ts w;
+              do* w2 <- wf_exprs d n c es w1;
+              wf_block d n c entry is_repeat rest seen pending w2
           | SCall f args =>
-              do* w1 <- wf_expr n c f w;
-              do* w2 <- wf_exprs n c args w1;
-              wf_block n c entry is_repeat rest seen pending w2
+              do* w1 <- wf_expr d n c f w;
+              do* w2 <- wf_exprs d n c args w1;
+              wf_block d n c entry is_repeat rest seen pending w2
           | SLocalFun x ps fb =>
               do* (c1, w1) <- declare [x] c w;
-              do* w2 <- wf_func n c1 ps fb w1;
-              wf_block n c1 entry is_repeat rest seen pending w2
+              do* w2 <- wf_func d n c1 ps fb w1;
+              wf_block d n c1 entry is_repeat rest seen pending w2
           | SDo blk =>
-              do* (pending1, w1) <- wf_sub n c c false blk None seen pending w;
-              wf_block n c entry is_repeat rest seen pending1 w1
+              do* (pending1, w1) <- wf_sub d n c c false blk None seen pending w;
+              wf_block d n c entry is_repeat rest seen pending1 w1
           | SWhile cond blk =>
-              do* w1 <- wf_expr n c cond w;
-              do* (pending1, w2) <- wf_sub n c (loop_ctx c) false blk None seen pending w1;
-              wf_block n c entry is_repeat rest seen pending1 w2
+              do* w1 <- wf_expr d n c cond w;
+              do* (pending1, w2) <- wf_sub d n c (loop_ctx c) false blk None seen pending w1;
+              wf_block d n c entry is_repeat rest seen pending1 w2
           | SRepeat blk cond =>
-              do* (pending1, w1) <- wf_sub n c (loop_ctx c) true blk (Some cond) seen pending w;
-              wf_block n c entry is_repeat rest seen pending1 w1
+              do* (pending1, w1) <- wf_sub d n c (loop_ctx c) true blk (Some cond) seen pending w;
+              wf_block d n c entry is_repeat rest seen pending1 w1
           | SIf cond t e =>
-              do* w1 <- wf_expr n c cond w;
-              do* (pending1, w2) <- wf_sub n c c false t None seen pending w1;
-              do* (pending2, w3) <- wf_sub n c c false e None seen pending1 w2;
-              wf_block n c entry is_repeat rest seen pending2 w3
+              do* w1 <- wf_expr d n c cond w;
+              do* (pending1, w2) <- wf_sub d n c c false t None seen pending w1;
+              do* (pending2, w3) <- wf_sub d n c c false e None seen pending1 w2;
+              wf_block d n c entry is_repeat rest seen pending2 w3
           | SNumFor x lo hi st blk =>
-              do* w1 <- wf_expr n c lo w;
-              do* w2 <- wf_expr n c hi w1;
-              do* w3 <- (match st with Some e => wf_expr n c e w2 | None => inr w2 end);
+              do* w1 <- wf_expr d n c lo w;
+              do* w2 <- wf_expr d n c hi w1;
+              do* w3 <- (match st with Some e => wf_expr d n c e w2 | None => inr w2 end);
               do* (ci, w4) <- declare ["(for index)"; "(for limit)"; "(for step)"; x] c w3;
-              do* (pending1, w5) <- wf_sub n c (loop_ctx ci) false blk None seen pending w4;
-              wf_block n c entry is_repeat rest seen pending1 w5
+              do* (pending1, w5) <- wf_sub d n c (loop_ctx ci) false blk None seen pending w4;
+              wf_block d n c entry is_repeat rest seen pending1 w5
           | SGenFor xs es blk =>
-              do* w1 <- wf_exprs n c es w;
+              do* w1 <- wf_exprs d n c es w;
               do* (ci, w2) <- declare ("(for generator)" :: "(for state)" :: "(for control)" :: xs) c w1;
-              do* (pending1, w3) <- wf_sub n c (loop_ctx ci) false blk None seen pending w2;
-              wf_block n c entry is_repeat rest seen pending1 w3
+              do* (pending1, w3) <- wf_sub d n c (loop_ctx ci) false blk None seen pending w2;
+              wf_block d n c entry is_repeat rest seen pending1 w3
           | SReturn es =>
               match rest with
               | _ :: _ => inl "'return' is not the last statement of its block"
-              | [] => do* w1 <- wf_exprs n c es w; inr (c, pending, w1)
+              | [] => do* w1 <- wf_exprs d n c es w; inr (c, pending, w1)
               end
           | SBreak =>
               match rest with
-              | _ :: _ => inl "'break' is not the last statement of its block"
-              | [] => if x_loop c then inr (c, pending, w) else inl "no loop to break"
+              | _ :: _ =>
+                  if is53 d then
+                    (if x_loop c then wf_block d n c entry is_repeat rest seen pending w
+                     else inl "break outside a loop")
+                  else inl "'break' is not the last statement of its block"
+              | [] => if x_loop c then inr (c, pending, w)
+                      else inl (if is53 d then "break outside a loop" else "no loop to break")
               end
           | SGoto l =>
-              if has_label l seen then wf_block n c entry is_repeat rest seen pending w
-              else wf_block n c entry is_repeat rest seen ((l, x_nact c) :: pending) w
+              if has_label l seen then wf_block d n c entry is_repeat rest seen pending w
+              else wf_block d n c entry is_repeat rest seen ((l, x_nact c) :: pending) w
           | SLabel l =>
               if has_label l seen then inl ("duplicate label '" ++ l ++ "'") else
               let slot := if only_labels rest && negb is_repeat then entry else x_nact c in
               do* pending1 <- resolve l slot pending;
-              wf_block n c entry is_repeat rest ((l, slot) :: seen) pending1 w
+              wf_block d n c entry is_repeat rest ((l, slot) :: seen) pending1 w
           end
       end
   end.
 
-Definition wf_chunk (fuel : nat) (b : block) : wf_result :=
-  match wf_block fuel (mkCtx [] O 0%N false) 0%N false b [] [] (mkW 0%N [[]]) with
+Definition wf_chunk (d : dialect) (fuel : nat) (b : block) : wf_result :=
+  match wf_block d fuel (mkCtx [] O 0%N false) 0%N false b [] [] (mkW 0%N [[]]) with
   | inl m => WfBad m
   | inr (_, (l, _) :: _, _) => WfBad ("undefined label '" ++ l ++ "'")
   | inr (_, [], _) => WfOk
   end.
 
-Definition lua_wf (src : string) : wf_result :=
-  match parse_lua src with
+Definition lua_wf (d : dialect) (src : string) : wf_result :=
+  match parse_lua d src with
   | ParseErr l m => WfBad ("line " ++ n_to_dec l ++ ": " ++ m)
-  | ParseOk b => wf_chunk (2 * String.length src + 100) b
+  | ParseOk b => wf_chunk d (2 * String.length src + 100) b
   end.
